@@ -210,4 +210,223 @@ when_kernel Gzx.Gen.K17.matrixHistogram in
 example : Gen.K17.matrixHistogram [] (words (histogram [])) 5 5 (fun r => bytes (rowOf (List.replicate 25 9) 5 r.toNat)) =
     .ok (words ((List.replicate 32 0).set 1 12)) := by decide +kernel
 
+/-! ## `GetMatrix` of the RGB / Go-image and the YUV source -/
+
+theorem sliceL_bytes (l : List Nat) (a b : Nat) (ea eb : Int) (ha : ea = a) (hb : eb = b) :
+    sliceL (bytes l) ea eb = (sliceN l a b).map bytes := by
+  subst ha hb
+  unfold sliceL sliceN
+  by_cases h : a ≤ b ∧ b ≤ l.length
+  · have h' : (0 : Int) ≤ (a : Int) ∧ (a : Int) ≤ (b : Int) ∧ (b : Int) ≤ ((bytes l).length : Nat) := by
+      rw [bytes_length]; omega
+    simp only [h, h', and_self, if_true, Except.map, Int.toNat_natCast]
+    congr 1
+    rw [List.drop_take, bytes, bytes, List.map_take, List.map_drop]
+  · have h' : ¬ ((0 : Int) ≤ (a : Int) ∧ (a : Int) ≤ (b : Int) ∧ (b : Int) ≤ ((bytes l).length : Nat)) := by
+      rw [bytes_length]; omega
+    simp only [h, h', if_false, Except.map]
+
+theorem copyL_bytes (a b : List Nat) : copyL (bytes a) (bytes b) = bytes (copyInto a b) := by
+  simp [copyL, copyInto, bytes, List.map_take, List.map_drop]
+
+theorem copySeg_bytes (t : List Nat) (lo hi : Nat) (s : List Nat) (elo ehi : Int) (hlo : elo = lo) (hhi : ehi = hi) :
+    copySeg (bytes t) elo ehi (bytes s) = (copySegN t lo hi s).map bytes := by
+  subst hlo hhi
+  unfold copySeg copySegN
+  by_cases h : lo ≤ hi ∧ hi ≤ t.length
+  · have h' : (0 : Int) ≤ (lo : Int) ∧ (lo : Int) ≤ (hi : Int) ∧ (hi : Int) ≤ ((bytes t).length : Nat) := by
+      rw [bytes_length]; omega
+    simp only [h, h', and_self, if_true, Except.map, Int.toNat_natCast]
+    congr 1
+    have e : (List.drop lo (bytes t)).take (hi - lo) = bytes ((t.drop lo).take (hi - lo)) := by
+      simp [bytes, List.map_take, List.map_drop]
+    rw [e, copyL_bytes]
+    simp [bytes, List.map_take, List.map_drop]
+  · have h' : ¬ ((0 : Int) ≤ (lo : Int) ∧ (lo : Int) ≤ (hi : Int) ∧ (hi : Int) ≤ ((bytes t).length : Nat)) := by
+      rw [bytes_length]; omega
+    simp only [h, h', if_false, Except.map]
+
+theorem mk_bytes (e : Int) (n : Nat) (h : e = n) : mk e = .ok (bytes (List.replicate n 0)) := mk_words e n h
+
+when_kernel Gzx.Gen.K17.rgbGetMatrix in
+/-- one row of the RGB source's row-by-row copy (`copy(matrix[outputOffset:outputOffset+width], luminances[inputOffset:inputOffset+width])`) -/
+theorem k_rgbGetMatrix_row (data : List Nat) (dataW w off y : Nat) (t : List Nat) :
+    Gen.K17.rgbGetMatrix_body1 (bytes data) dataW w y (bytes t, ((off + y * dataW : Nat) : Int)) =
+      match cropStep data dataW w off (fun _ y => y * w + w) t y with
+      | .ok t' => .next (bytes t', ((off + (y + 1) * dataW : Nat) : Int))
+      | .error e => .panic e := by
+  simp only [Gen.K17.rgbGetMatrix_body1, cropStep, cropRow]
+  rw [sliceL_bytes data (off + y * dataW) (off + y * dataW + w) _ _ rfl (by omega)]
+  cases sliceN data (off + y * dataW) (off + y * dataW + w) with
+  | error e => rfl
+  | ok r =>
+    simp only [Except.map, tryC_ok]
+    rw [copySeg_bytes t (y * w) (y * w + w) r _ _ (by simp [Int.natCast_mul]) (by simp [Int.natCast_mul, Int.natCast_add])]
+    cases copySegN t (y * w) (y * w + w) r with
+    | error e => rfl
+    | ok t' =>
+      simp only [Except.map, tryC_ok]
+      congr 2
+      rw [Nat.add_mul]; simp [Int.natCast_add, Int.natCast_mul]; omega
+
+when_kernel Gzx.Gen.K17.yuvGetMatrix in
+/-- one row of the YUV source's row-by-row copy (`copy(matrix[outputOffset:], yuvData[inputOffset:inputOffset+width])`) -/
+theorem k_yuvGetMatrix_row (data : List Nat) (dataW w off y : Nat) (t : List Nat) :
+    Gen.K17.yuvGetMatrix_body1 (bytes data) dataW w y (bytes t, ((off + y * dataW : Nat) : Int)) =
+      match cropStep data dataW w off (fun len _ => len) t y with
+      | .ok t' => .next (bytes t', ((off + (y + 1) * dataW : Nat) : Int))
+      | .error e => .panic e := by
+  simp only [Gen.K17.yuvGetMatrix_body1, cropStep, cropRow]
+  rw [sliceL_bytes data (off + y * dataW) (off + y * dataW + w) _ _ rfl (by omega)]
+  cases sliceN data (off + y * dataW) (off + y * dataW + w) with
+  | error e => rfl
+  | ok r =>
+    simp only [Except.map, tryC_ok]
+    rw [copySeg_bytes t (y * w) t.length r _ _ (by simp [Int.natCast_mul]) (by simp [len, bytes])]
+    cases copySegN t (y * w) t.length r with
+    | error e => rfl
+    | ok t' =>
+      simp only [Except.map, tryC_ok]
+      congr 2
+      rw [Nat.add_mul]; simp [Int.natCast_add, Int.natCast_mul]; omega
+
+/-- the three strategies around the row loop, shared by both sources -/
+theorem getMatrix_shell (body : Int → List Int × Int → Ctl (List Int × Int) (List Int))
+    (data : List Nat) (dataW dataH left top w h : Nat) (hiF : Nat → Nat → Nat)
+    (hbody : ∀ (y : Nat) (t : List Nat), body (y : Int) (bytes t, ((top * dataW + left + y * dataW : Nat) : Int)) =
+      match cropStep data dataW w (top * dataW + left) hiF t y with
+      | .ok t' => .next (bytes t', ((top * dataW + left + (y + 1) * dataW : Nat) : Int))
+      | .error e => .panic e) :
+    (if (((w : Int) == (dataW : Int)) && ((h : Int) == (dataH : Int))) then (.ok (bytes data) : Res (List Int))
+      else
+        tryR (mk ((w : Int) * (h : Int))) fun t1 =>
+        if ((w : Int) == (dataW : Int)) then
+          tryR (sliceL (bytes data) ((top : Int) * (dataW : Int) + (left : Int)) ((top : Int) * (dataW : Int) + (left : Int) + (w : Int) * (h : Int))) fun t2 =>
+          .ok (copyL t1 t2)
+        else
+          (loop body 1 (tripUp 0 (h : Int) 1) 0 (t1, (top : Int) * (dataW : Int) + (left : Int))).thenR fun st => .ok st.1) =
+      (getMatrixW data dataW dataH left top w h hiF).map bytes := by
+  unfold getMatrixW
+  by_cases h1 : w = dataW ∧ h = dataH
+  · obtain ⟨hw, hh⟩ := h1
+    subst hw hh
+    simp only [beq_self_eq_true, Bool.and_self, and_self, if_true, Except.map]
+  · have : (((w : Int) == (dataW : Int)) && ((h : Int) == (dataH : Int))) = false := by
+      rw [Bool.and_eq_false_iff]; simp only [beq_eq_false_iff_ne, ne_eq, Int.natCast_inj]; omega
+    simp only [this, h1, Bool.false_eq_true, if_false]
+    rw [mk_bytes _ (w * h) (by simp [Int.natCast_mul])]
+    simp only [tryR_ok]
+    by_cases h2 : w = dataW
+    · subst h2
+      simp only [beq_self_eq_true, if_true]
+      rw [sliceL_bytes data (top * w + left) (top * w + left + w * h) _ _ (by simp [Int.natCast_mul])
+        (by simp [Int.natCast_mul, Int.natCast_add])]
+      cases sliceN data (top * w + left) (top * w + left + w * h) with
+      | error e => rfl
+      | ok s => simp only [Except.map, tryR_ok, copyL_bytes]
+    · have : ((w : Int) == (dataW : Int)) = false := by
+        simp only [beq_eq_false_iff_ne, ne_eq, Int.natCast_inj]; exact h2
+      simp only [this, h2, Bool.false_eq_true, if_false]
+      have hl := loop_up_fold_aux (ρ := List Int) bytes (fun y => ((top * dataW + left + y * dataW : Nat) : Int)) body
+        (cropStep data dataW w (top * dataW + left) hiF) h 0 (List.replicate (w * h) 0) (by
+          intro y _ _ t
+          rw [hbody y t]
+          cases cropStep data dataW w (top * dataW + left) hiF t y <;> rfl)
+      have e0 : ((top * dataW + left + 0 * dataW : Nat) : Int) = (top : Int) * (dataW : Int) + (left : Int) := by
+        simp [Int.natCast_mul, Int.natCast_add]
+      rw [e0] at hl
+      rw [show tripUp 0 (h : Int) 1 = h by rw [tripUp_one]; omega]
+      have hl' : loop body 1 h 0 (bytes (List.replicate (w * h) 0), (top : Int) * (dataW : Int) + (left : Int)) = _ := hl
+      rw [hl']
+      cases (List.range' 0 h).foldlM (cropStep data dataW w (top * dataW + left) hiF) (List.replicate (w * h) 0) <;> rfl
+
+when_kernel Gzx.Gen.K17.rgbGetMatrix in
+/-- `RGBLuminanceSource.GetMatrix()` (also the Go-image source's) = the mirror `K17b.getMatrixW`: whole image → the original array;
+    full width → one checked slice + `copy`; otherwise `height` checked row slices copied to `y*width` -/
+theorem k_rgbGetMatrix_eq (data : List Nat) (dataW dataH left top w h : Nat) :
+    Gen.K17.rgbGetMatrix w h (bytes data) dataW dataH left top =
+      (getMatrixW data dataW dataH left top w h (fun _ y => y * w + w)).map bytes := by
+  simp only [Gen.K17.rgbGetMatrix]
+  exact getMatrix_shell _ data dataW dataH left top w h _ (fun y t => k_rgbGetMatrix_row data dataW w _ y t)
+
+when_kernel Gzx.Gen.K17.yuvGetMatrix in
+/-- `PlanarYUVLuminanceSource.GetMatrix()` = the mirror (destination slices `matrix[outputOffset:]`) -/
+theorem k_yuvGetMatrix_eq (data : List Nat) (dataW dataH left top w h : Nat) :
+    Gen.K17.yuvGetMatrix w h (bytes data) dataW dataH left top =
+      (getMatrixW data dataW dataH left top w h (fun len _ => len)).map bytes := by
+  simp only [Gen.K17.yuvGetMatrix]
+  exact getMatrix_shell _ data dataW dataH left top w h _ (fun y t => k_yuvGetMatrix_row data dataW w _ y t)
+
+when_kernel Gzx.Gen.K17.rgbGetMatrix in
+/-- **RGB / Go-image GetMatrix, Go source to model**: for every view the regenerated method returns what
+    `Luminance.baseGetMatrix` returns (the same bytes, or the slice-bounds panic) -/
+theorem k_rgbGetMatrix_model (v : Luminance.View) :
+    ∃ r, Gen.K17.rgbGetMatrix v.w v.h (bytes v.data) v.dataW v.dataH v.left v.top = r.map bytes ∧
+      Luminance.baseGetMatrix v = liftV r :=
+  ⟨_, k_rgbGetMatrix_eq _ _ _ _ _ _ _, getMatrixW_agrees v _ (fun _ _ => Or.inl rfl)⟩
+
+when_kernel Gzx.Gen.K17.yuvGetMatrix in
+/-- **YUV GetMatrix, Go source to model** -/
+theorem k_yuvGetMatrix_model (v : Luminance.View) :
+    ∃ r, Gen.K17.yuvGetMatrix v.w v.h (bytes v.data) v.dataW v.dataH v.left v.top = r.map bytes ∧
+      Luminance.baseGetMatrix v = liftV r :=
+  ⟨_, k_yuvGetMatrix_eq _ _ _ _ _ _ _, getMatrixW_agrees v _ (fun _ _ => Or.inr rfl)⟩
+
+-- non-vacuity: a 2x2 crop at (1,1) of a 4x3 image (row-by-row branch); a too short array panics
+when_kernel Gzx.Gen.K17.rgbGetMatrix in
+example : Gen.K17.rgbGetMatrix 2 2 (bytes [0,1,2,3, 4,5,6,7, 8,9,10,11]) 4 3 1 1 = .ok (bytes [5, 6, 9, 10]) := by decide +kernel
+when_kernel Gzx.Gen.K17.yuvGetMatrix in
+example : Gen.K17.yuvGetMatrix 2 2 (bytes [0,1,2,3, 4,5,6,7, 8,9,10,11]) 4 3 1 1 = .ok (bytes [5, 6, 9, 10]) := by decide +kernel
+when_kernel Gzx.Gen.K17.rgbGetMatrix in
+example : Gen.K17.rgbGetMatrix 2 2 (bytes [0,1,2,3, 4,5,6,7, 8]) 4 3 1 1 = .error (.panic "slice bounds out of range") := by
+  decide +kernel
+
+/-! ## the rotation loop of `GoImageLuminanceSource.RotateCounterClockwise` -/
+
+when_kernel Gzx.Gen.K17.rotateCCW in
+/-- one element: `newLuminas[j*height+i] = oldLuminas[(top+i)*dataWidth + left+width-1-j]` -/
+theorem k_rotateCCW_cell (data : List Nat) (dataW left top w h j i : Nat) (hj : j < w) (t : List Nat) :
+    Gen.K17.rotateCCW_body2 h top dataW (bytes data) j ((left : Int) + (w : Int) - 1 - (j : Int)) (i : Int) (words t) =
+      ofRes ((rotCell data dataW left top w h j t i).map words) := by
+  simp only [Gen.K17.rotateCCW_body2, rotCell, rdR]
+  have ei : ((top : Int) + (i : Int)) * (dataW : Int) + ((left : Int) + (w : Int) - 1 - (j : Int)) =
+      (((top + i) * dataW + (left + w - 1 - j) : Nat) : Int) := by
+    rw [Int.natCast_add, Int.natCast_mul, Int.natCast_add]
+    omega
+  rw [ei, bytes, idx_bytes]
+  cases data[(top + i) * dataW + (left + w - 1 - j)]? with
+  | none => rfl
+  | some v =>
+    simp only [tryC_ok]
+    rw [setC t (j * h + i) v _ (by simp [Int.natCast_mul, Int.natCast_add]) rfl]
+    cases setWord t (j * h + i) v <;> rfl
+
+when_kernel Gzx.Gen.K17.rotateCCW in
+/-- the rotation loops (`make([]byte, width*height)`, `for j … { x := left+width-1-j; for i … }`) = the mirror `K17b.rotateW` -/
+theorem k_rotateCCW_eq (data : List Nat) (dataW left top w h : Nat) :
+    Gen.K17.rotateCCW w h top left dataW (bytes data) = (rotateW data dataW left top w h).map words := by
+  simp only [Gen.K17.rotateCCW, rotateW]
+  rw [mk_words _ (w * h) (by simp [Int.natCast_mul])]
+  simp only [tryR_ok]
+  rw [loop_up_fold' words (rotColW data dataW left top w h) 0 w (List.replicate (w * h) 0) rfl
+        (by rw [tripUp_one]; omega) (by omega)]
+  · cases (List.range' 0 w).foldlM (rotColW data dataW left top w h) (List.replicate (w * h) 0) <;> rfl
+  · intro j _ hj t
+    simp only [Gen.K17.rotateCCW_body1, rotColW]
+    rw [loop_up_fold' words (rotCell data dataW left top w h j) 0 h t rfl (by rw [tripUp_one]; omega) (by omega)
+          (fun i _ _ t => k_rotateCCW_cell data dataW left top w h j i (by omega) t)]
+    cases (List.range' 0 h).foldlM (rotCell data dataW left top w h j) t <;> rfl
+
+when_kernel Gzx.Gen.K17.rotateCCW in
+/-- **RotateCounterClockwise, Go source to model**: the regenerated loops produce the `data` of `Luminance.rotateCCW v`
+    (rows of the rotated copy = columns of the view from the right; index panic where the model's read fails) -/
+theorem k_rotateCCW_model (v : Luminance.View) :
+    ∃ r, Gen.K17.rotateCCW v.w v.h v.top v.left v.dataW (bytes v.data) = r.map words ∧
+      (mapME (Luminance.rotRow v) (List.range v.w)).map List.flatten = liftV r :=
+  ⟨_, k_rotateCCW_eq _ _ _ _ _ _, rotateW_agrees v⟩
+
+-- non-vacuity: the 2x2 view at (1,0) of a 3x2 image [[1,2,3],[4,5,6]] rotates to [[3,6],[2,5]]
+when_kernel Gzx.Gen.K17.rotateCCW in
+example : Gen.K17.rotateCCW 2 2 0 1 3 (bytes [1, 2, 3, 4, 5, 6]) = .ok (words [3, 6, 2, 5]) := by decide +kernel
+
 end Gzx.Obligations.K17b
